@@ -272,6 +272,11 @@ class BuiltinsMixin:
         o = args[0]
         return VPy(("zset", self.s_arr(o, st), o.elem))
 
+    def bi_select_list(self, args, kw, st, fr):
+        """spec: the contents of a list object as a value (items + length)"""
+        o = args[0]
+        return VPy(("zdict", self.list_items(o, st), self.length(o, st)))
+
     def bi_select_dict(self, args, kw, st, fr):
         """spec: the contents of a dict object as a value (keys + map)"""
         o = args[0]
